@@ -1225,11 +1225,39 @@ func (t *c15Trace) dueFields(op string, pre c15Snap, preGauges []inctypes.Gauge)
 		}
 	}
 	before := map[uint64]sdk.Coins{}
+	beforeCoins := map[uint64]sdk.Coins{}
 	for _, g := range preGauges {
 		before[g.Id] = g.DistributedCoins
+		beforeCoins[g.Id] = g.Coins
 	}
 	gs := f.App.IncentivesKeeper.GetGauges(f.Ctx)
 	sort.Slice(gs, func(i, j int) bool { return gs[i].Id < gs[j].Id })
+	// "what a stream hands to its gauges": every coin the streamer account moves to the incentives account in a
+	// block is handed to some gauge, i.e. must show up in that gauge's Coins.  (Model-independent: balances and
+	// stored gauges only.)  x/incentives Distribute persists a gauge handed in by the streamer only through
+	// updateGaugePostDistribute, i.e. only when the gauge distributes something in the same call: a gauge with no
+	// qualifying lock (or an unlaunched rollapp) keeps its old Coins although the stream's share has been moved and
+	// the stream's DistributedCoins have grown — the share is stranded in the incentives account.
+	if moved := c15Only(pre.bal[100]); moved.IsAllGTE(c15Only(f.App.BankKeeper.GetAllBalances(f.Ctx, c15Addr(100)))) {
+		moved = moved.Sub(c15Only(f.App.BankKeeper.GetAllBalances(f.Ctx, c15Addr(100)))...)
+		credited := sdk.NewCoins()
+		okc := true
+		for _, g := range gs {
+			if !g.Coins.IsAllGTE(beforeCoins[g.Id]) {
+				okc = false
+				break
+			}
+			credited = credited.Add(c15Only(g.Coins.Sub(beforeCoins[g.Id]...))...)
+		}
+		if okc && !moved.Empty() {
+			r.Hit("stream-share/moved")
+			if !moved.Equal(credited) {
+				r.Hit("stream-share/moved-but-gauge-not-credited")
+				r.Violate("C15/stream_hands_to_gauges/share-moved-gauge-not-credited", fmt.Sprintf("over `%s` the streamer account moved %s to the incentives account (the streams' DistributedCoins grew accordingly) but the gauges' Coins grew by %s only: a gauge that distributes nothing in the same Distribute call (no qualifying lock / unlaunched rollapp) is not written back, its share is stranded in the incentives module account",
+					op, c15ShowCoins(moved), c15ShowCoins(credited)), t.replay()...)
+			}
+		}
+	}
 	for _, g := range gs {
 		if !g.DistributedCoins.IsAllGTE(before[g.Id]) {
 			comparable = false
@@ -2573,6 +2601,27 @@ var c15Witnesses = map[string][]string{
 		"delegate 4 3", "vote 4 2:40,5:60",
 		"fund 100 9000,50", "mkstream 5000,50 1:1,2:2,5:3 NOW 1 2", "mkstream 4000,0 - NOW 1 2 s",
 		"begin 3601", "end", "begin 3601", "end", "begin 3601", "end", "begin 604801", "end",
+	},
+	// a stream feeds asset gauge 1 (a lock qualifies from the start) and asset gauge 2 (other denom: nobody has a
+	// qualifying lock yet); a lock for gauge 2 arrives in the middle of the epoch.  Limit 500: the first EndBlock of
+	// the epoch serves both gauges — gauge 2 distributes nothing in that call, so it is not written back: its share
+	// (2000) is stranded in the incentives account and actor 2 never gets anything although the stream's
+	// DistributedCoins say 4000.  Limit 1 (next witness): gauge 2 is served one block later, after the lock: it is
+	// credited and pays actor 2.  So what the gauges receive from the stream depends on the iteration limit.
+	"stream-share-stranded": {
+		"begin 1", "end",
+		"mkgauge 0 1 0 3600 0,0 NOW 1", "mkgauge 0 1 1 3600 0,0 NOW 1",
+		"lock 1 0 100 3600",
+		"fund 100 4000,0", "mkstream 4000,0 1:1,2:1 NOW 1 2",
+		"begin 3601", "end", "begin 3601", "end", "lock 2 1 50 3600", "begin 10", "end", "begin 10", "end", "begin 3601", "end", "begin 3601", "end",
+	},
+	"stream-share-stranded-limit-1": {
+		"maxiter 1",
+		"begin 1", "end",
+		"mkgauge 0 1 0 3600 0,0 NOW 1", "mkgauge 0 1 1 3600 0,0 NOW 1",
+		"lock 1 0 100 3600",
+		"fund 100 4000,0", "mkstream 4000,0 1:1,2:1 NOW 1 2",
+		"begin 3601", "end", "begin 3601", "end", "lock 2 1 50 3600", "begin 10", "end", "begin 10", "end", "begin 3601", "end", "begin 3601", "end",
 	},
 	// FAULT INJECTION (forceowner: outside the reachable states since fix F4): a failing recipient in the EPOCH-HOOK
 	// path.  Rollapp gauge 1 (owner forced to the blocked lockup module account), rollapp gauge 2 (good owner 3) and
